@@ -564,6 +564,9 @@ class Session:
                 self.viol("text-changed-by-navigation", f"{opdesc}: {m.text!r} -> {t!r}")
                 raise Abort
             m.resync(t, p, prefs_known=self.opname not in ("up", "down"))
+            if self.opname in ("home", "end"):
+                # documented (get_pref_col): home/end make the preferred column leftmost/rightmost wherever they land
+                m.prefs = frozenset([R.LEFT if self.opname == "home" else R.RIGHT])
             return
         self.judged += 1
         sink.count("oracle:text_pos_equal")
